@@ -48,11 +48,14 @@ CLAIMED = {
         design_ref="DESIGN.md §5 C04"),
     "C06": dict(
         engine="S",
-        technique="term-valued symbolic execution of the real Dataset.bin/fourier_resample/pad/crop NumPy code (explicit DFT model), identities decided by z3 over all array contents and calibrations; replay on real NumPy",
+        engine_override="S+X",
+        technique="term-valued symbolic execution of the real Dataset.bin/fourier_resample/pad/crop NumPy code (explicit DFT model), identities decided by z3 over all array contents and calibrations; replay on real NumPy; CrossHair over the real bin for integer dtypes (symbolic selectors, concrete extreme values)",
         text=("bounded model checking by symbolic execution: the repository's functions run unchanged on arrays whose "
               "elements are z3 real terms; block-sum/mean, sampling/origin updates, count/mean/centre/extent conservation, "
               "linearity, identity, up-then-down identity (under the no-Nyquist precondition) and pad-then-crop identity are "
-              "each asked as 'exists input violating it?' and come back unsat for every enumerated shape/factor"),
+              "each asked as 'exists input violating it?' and come back unsat for every enumerated shape/factor (incl. resampling factors whose "
+              "product with the axis length is rounded); block sums / means of uint8, int8, uint16, int16, int32 and bool arrays with values at the "
+              "extremes of the dtype equal the exact sums / means (CrossHair, all selector combinations)"),
         note=("real arithmetic instead of floating point; DFT lengths 1, 2, 4 exact, other lengths with float64 twiddles "
               "taken as exact rationals and a 1e-9 tolerance; the NumPy model is validated against real NumPy on every run"),
         design_ref="DESIGN.md §5 C06"),
